@@ -43,6 +43,12 @@ def showBals (w : W) : String :=
     let b := nz (w.world.bank.balance a)
     if b.isEmpty then none else some (a ++ "~" ++ showCoins b))) ++ "]"
 
+def showAccount (a : Account) : String := s!"{esc a.type}|{esc a.id}"
+
+def showParams (subs : List SubD) : String :=
+  "[" ++ ";".intercalate (subs.map fun s =>
+    s!"{esc s.name}~{showOptInt s.burnShare}~{showAccount s.primary}~<{",".intercalate (s.sources.map fun a => match a with | some a => showAccount a | none => "nil")}>~<{",".intercalate (s.shares.map fun sh => s!"{esc sh.name}/{showOptInt sh.share}/{showAccount sh.dest}")}>") ++ "]"
+
 def updLast (l : List SubD) (f : SubD → SubD) : List SubD :=
   match l.reverse with
   | [] => []
@@ -96,6 +102,30 @@ def step (w : W) (toks : List String) : W × String :=
       let inv2 := stateSumMatchesBalance w.env r.world
       (w', s!"ok states=[{";".intercalate (r.world.states.map showState)}] main={showCoins (nz (r.world.bank.balance w.env.mainAddr))} ev=[{";".intercalate (r.events.map showEvent)}] burned={showCoins (nz r.world.bank.burned)} bal={showBals w'} inv={if inv1 then 1 else 0}{if inv2 then 1 else 0} calls={r.world.callIdx}")
     | _ => (w, "panic")
+  | ["d.update", "full", auth] =>
+    match updateFull w.env (auth = "gov") w.pending with
+    | some ns => ({ w with params := ns }, "ok")
+    | none => (w, "err")
+  | ["d.update", "sub", auth, isNil] =>
+    let sub := if isNil = "1" then none else w.pending.head?
+    match updateSub w.env (auth = "gov") w.params sub with
+    | some ns => ({ w with params := ns }, "ok")
+    | none => (w, "err")
+  | ["d.update", "share", auth, subName, destName, share] =>
+    match optInt? share with
+    | some sh =>
+      match updateShare w.env (auth = "gov") w.params (unesc subName) (unesc destName) sh with
+      | some ns => ({ w with params := ns }, "ok")
+      | none => (w, "err")
+    | none => (w, "bad-op")
+  | ["d.update", "burn", auth, subName, burn] =>
+    match optInt? burn with
+    | some b =>
+      match updateBurn w.env (auth = "gov") w.params (unesc subName) b with
+      | some ns => ({ w with params := ns }, "ok")
+      | none => (w, "err")
+    | none => (w, "bad-op")
+  | ["d.params"] => (w, "ok p=" ++ showParams w.params)
   | ["d.end"] => (w, ".")
   | _ => (w, "bad-op")
 
